@@ -1,5 +1,6 @@
 import QuinnModel.Conn.Amplification
 import QuinnModel.Conn.Lifecycle
+import QuinnModel.Conn.Timers
 import QuinnModel.Util
 /- Trace-validation front ends for the Connection-level skeleton models (stateless: each request
    carries the observed before-state; the model prints the after-state it predicts). -/
@@ -90,6 +91,18 @@ def life : List String → String
     match now.toNat?, idle.toNat?, lifeParse st with
     | some now, some idle, some l => lifeShow (Life.step l (.authed now idle))
     | _, _, _ => "bad-op"
+  | _ => "bad-op"
+
+/-- `timers next <now> <t0> … <t8>` prints `next_timeout` and the indices that are expired at `now` -/
+def timers : List String → String
+  | "next" :: now :: tbl =>
+    match now.toNat?, tbl.mapM optNat with
+    | some now, some t =>
+      if t.length ≠ Gen.timerCount then "bad-op" else
+      let o := fun (x : Option Nat) => match x with | some n => toString n | none => "-"
+      let ex := (Timers.expired t now).map toString
+      s!"{o (Timers.nextTimeout t)} [{",".intercalate ex}]"
+    | _, _ => "bad-op"
   | _ => "bad-op"
 
 end QM.Drv
